@@ -24,6 +24,8 @@ def run(ctx, rep):
     fx = ctx.facts("")
     rep.configs.append("default")
     CF.check_parse(fx, rep, "C11.1")
+    # the header words the gate compares are the whole 32-bit magic / version fields of the documented layout
+    CF.check_layouts(fx, rep, "C11.lay")
     # error kinds exist with the documented names (TAB)
     a = fx.adt("proguard::cache::CacheErrorKind")
     names = [v["name"] for v in a["variants"]] if a else []
